@@ -36,6 +36,13 @@ func main() {
 		os.Exit(2)
 	}
 	r := core.NewRun(id, tier)
+	core.PanicHook = func(v any, stack string) {
+		if fr := core.LibraryFrame(stack); fr != "" {
+			r.Violate("panic-escaped "+fr, fmt.Sprintf("panic out of the library: %v (first library frame %s)", v, fr), nil)
+		} else {
+			r.InternalError(fmt.Sprintf("panic in the harness: %v\n%s", v, stack))
+		}
+	}
 	f(r)
 	os.Exit(r.Finish())
 }
